@@ -269,7 +269,10 @@ func (ms *MapScen) Scenario() *Scenario {
 			var epi []HOp
 			var size, visits int
 			var rangePairs [][2]int
-			var stats = struct{ G, S int64; Phys, Counter, Roots int }{}
+			var stats = struct {
+				G, S                 int64
+				Phys, Counter, Roots int
+			}{}
 			er := sched.Run([]sched.Body{func() {
 				for k := 0; k < ms.NKeys; k++ {
 					v, ok := m.Load(k)
